@@ -31,6 +31,10 @@ Deviation switches (each predicts the complete observation when switched on):
                             the row, so all cells of that row get the left / right border
   LEADING_RULE_ROW_LOST     Array.applyBorders: a rule-only row that is not followed directly by the first content row
                             (or is not the very first row) and has no content row above it hands its rules to nobody
+  DEPTH5_ITEMS_STEP_ENUMI   List.item.invoke finds no counter for a list nested deeper than 4 (List.counters has 4 names) and
+                            keeps the class defaults: the item gets position 0 and steps enumi, the counter of the
+                            outermost list (which, when the counters are chained as in the standard classes, also restarts
+                            enumii..enumiv).  Modelled by replaying List.invoke / item.invoke on four integers.
 
 Rows without any content (all cells empty, or nothing at all before \\\\), with or without rule commands in front, are
 not rows of the table (statement: "r non-empty rows yield r rows"; plasTeX: border-only rows are dropped).  A rule written
@@ -43,15 +47,17 @@ CLINE_SKIP_SPAN = 'C10.CLINE_SKIP_SPAN'
 LEADING_AT = 'C10.LEADING_AT_BOGUS_COLUMNS'
 VLINE_ROW = 'C10.VLINE_WHOLE_ROW'
 RULE_ROW_LOST = 'C10.LEADING_RULE_ROW_LOST'
-DEVIATIONS = (CLINE_SKIP_SPAN, LEADING_AT, VLINE_ROW, RULE_ROW_LOST)
+DEPTH5 = 'C10.DEPTH5_ITEMS_STEP_ENUMI'
+DEVIATIONS = (CLINE_SKIP_SPAN, LEADING_AT, VLINE_ROW, RULE_ROW_LOST, DEPTH5)
 
 LIST_KINDS = ('itemize', 'enumerate', 'description')
 
 
 class Alloc(object):
-    def __init__(self, pos=False):
+    def __init__(self, pos=False, ref=False):
         self.n = 0
-        self.pos = pos          # the document has LaTeX's enum counters (a class is loaded): item numbers are observable
+        self.ref = ref          # a document class is loaded: \\theenumi.. exist, so enumerate items show their number as ref
+        self.pos = pos          # the document has LaTeX's enum counters: item numbers are observable
 
     def __call__(self):
         self.n += 1
@@ -393,14 +399,50 @@ def cline_aligned(rows, b, lo, hi):
 ROMAN = ['i', 'ii', 'iii', 'iv']
 
 
+class EnumSim(object):
+    """literal replay of List.invoke / List.item.invoke on the four enum counters (deviation DEPTH5 only)"""
+    def __init__(self, chained):
+        self.e = [0, 0, 0, 0]
+        self.depth = 0
+        self.chained = chained
+
+    def begin(self, start):
+        self.depth += 1
+        for i in range(self.depth, 4):
+            self.e[i] = 0
+        if start and self.depth <= 4:
+            self.e[self.depth - 1] = start
+
+    def end(self):
+        self.depth -= 1
+        for i in range(self.depth, 4):
+            self.e[i] = 0
+
+    def item(self):
+        """-> (position, number shown by ref)"""
+        if self.depth <= 4:
+            idx = self.depth - 1
+            pos = self.e[idx] + 1
+        else:
+            idx = 0
+            pos = 0
+        self.e[idx] += 1
+        if self.chained:
+            for i in range(idx + 1, 4):
+                self.e[i] = 0
+        return pos, self.e[idx]
+
+
 def list_exp(kind, items, m, start=0):
     """items = [(term, segments), ...] -> 'list' segment; when the document has the enum counters every item carries
     its number: position start+1, start+2, ... in order (and, in enumerate, a reference text showing that number)"""
     out = []
-    for k, (t, segs) in enumerate(items):
+    for k, it in enumerate(items):
+        t, segs = it[0], it[1]
         pos = None
         if m.pos:
-            pos = (start + k + 1, str(start + k + 1) if kind == 'enumerate' else None)
+            p, shown = (start + k + 1, start + k + 1) if len(it) < 3 or it[2] is None else it[2]
+            pos = (p, str(shown) if kind == 'enumerate' and m.ref else None)
         out.append((t, pos, segs))
     return ('list', kind, tuple(out))
 
@@ -416,10 +458,14 @@ def build_list(ast, m, dev=(), loose=0, depth=1):
     out = ['\\begin{%s}\n%s' % (kind, sep)]
     if start:
         out.append('\\setcounter{enum%s}{%d}\n' % (ROMAN[depth - 1], start))
+    sim = getattr(m, 'sim', None)
+    if sim:
+        sim.begin(start)
     exp = []
     for term, ctype, sub in items:
         s = '\\item'
         t = None
+        simpos = sim.item() if sim else None
         if term:
             t = m()
             s += '[%s]' % t
@@ -438,7 +484,12 @@ def build_list(ast, m, dev=(), loose=0, depth=1):
         elif ctype == 'EL':
             a, b, c = m(), m(), m()
             s += ' %s\n\\begin{quote}\\begin{itemize}\\item %s\\item %s\\end{itemize}\\end{quote}\n' % (a, b, c)
-            segs = (T(a), ('env', 'quote', (list_exp('itemize', [(None, (T(b),)), (None, (T(c),))], m),)))
+            inner = [(None, (T(b),)), (None, (T(c),))]
+            if sim:
+                sim.begin(0)
+                inner = [x + (sim.item(),) for x in inner]
+                sim.end()
+            segs = (T(a), ('env', 'quote', (list_exp('itemize', inner, m),)))
         elif ctype == 'ET':
             a = m()
             ts, te = build_table(IN_ITEM, m, None, dev)
@@ -470,7 +521,9 @@ def build_list(ast, m, dev=(), loose=0, depth=1):
         else:
             raise ValueError(ctype)
         out.append(s + sep)
-        exp.append((t, segs))
+        exp.append((t, segs, simpos))
+    if sim:
+        sim.end()
     out.append('\\end{%s}\n' % kind)
     return ''.join(out), list_exp(kind, exp, m, start)
 
@@ -478,10 +531,16 @@ def build_list(ast, m, dev=(), loose=0, depth=1):
 # ---------------------------------------------------------------------------
 # whole documents
 # ---------------------------------------------------------------------------
+def has_class(case):
+    return bool(case.get('wrap') == 'article' or case.get('article'))
+
+
 def build(case, dev=()):
     """case = {'fam': 'table'|'list', 'ast': ..., 'wrap': ...} -> (source, expected segments of the document)"""
     wrap = case.get('wrap', 'bare')
-    m = Alloc(pos=bool(wrap == 'article' or case.get('article')))
+    m = Alloc(pos=True, ref=has_class(case))
+    if DEPTH5 in dev and case['fam'] == 'list':
+        m.sim = EnumSim(chained=has_class(case))   # only the standard classes chain enumii..iv to their parent     # plasTeX's base macro set already provides enumi..enumiv: item numbers exist in every document
     if case['fam'] == 'list':
         a = m()
         s, e = build_list(case['ast'], m, dev, case.get('loose', 0))
